@@ -73,6 +73,8 @@ def run(cx, tier='quick'):
         rep.ok('DISCR-SAFE', '%s|%d sites, %d nodes scanned' % (where, len(sites), n_nodes),
                {'handler': where, 'sites': len(sites), 'nodes': n_nodes})
         check_match_shape(cx, t, fn, sites, rep)
+    from .scope import check_scopes
+    check_scopes(cx, rep, ['::ord::', '::partial_ord::'])
     rep.floor('DISCR-SAFE', 2)
     selftest(rep)
     rep.assumptions += ['safe Rust cannot observe enum layout', 'Rust reference: implicit discriminant = previous + 1, first = 0']
